@@ -408,7 +408,11 @@ def check(ctx):
     prod = ctx.facts('prod')
     tu = ctx.facts('testutils')
     check_B1(ctx, prod)
-    check_B2(ctx, tu)
+    # MSEM: the in-memory backend's Storage methods interpreted per (keyspace, key) against the reference key-value model
+    # (memstore_abs); subsumes B2, which is evaluated only when a construct is not modelled
+    import memstore_abs
+    if not memstore_abs.check_memstore(ctx, tu, 'C17.MSEM'):
+        check_B2(ctx, tu)
     check_B3(ctx, prod, tu)
     check_B4(ctx, prod)
     check_B5(ctx, prod)
